@@ -2,12 +2,13 @@
 use crate::runner::{Ctx, Report};
 use crate::sut::{self, Outcome, SVal, Session};
 
-pub const CONTEXTS: [&str; 16] = [
+pub const CONTEXTS: [&str; 19] = [
     "body-last", "if-then", "if-else", "begin", "let", "let*", "cond-clause", "cond-else", "cond=>", "case-clause", "case-else", "and", "or",
-    "when", "unless", "apply",
+    "when", "unless", "apply", "apply-apply", "apply-renamed", "apply-prefixed",
 ];
 pub const SHAPES: [&str; 6] = ["self", "mutual-2", "mutual-3", "through-parameter", "variadic", "closure-returned"];
-pub const SHAPES_ALL: [&str; 8] = ["self", "mutual-2", "mutual-3", "through-parameter", "variadic", "closure-returned", "internal-definition", "fresh-closure-per-iteration"];
+pub const SHAPES_ALL: [&str; 9] =
+    ["self", "mutual-2", "mutual-3", "through-parameter", "variadic", "closure-returned", "internal-definition", "fresh-closure-per-iteration", "apply-as-parameter"];
 
 /// put `x` (an expression in tail position) into the tail position of the given context
 pub fn wrap(ctx: &str, x: &str) -> String {
@@ -28,6 +29,9 @@ pub fn wrap(ctx: &str, x: &str) -> String {
         "when" => format!("(when #t 0 {})", x),
         "unless" => format!("(unless #f 0 {})", x),
         "apply" => format!("(apply (lambda () {}) '())", x),
+        "apply-apply" => format!("(apply apply (lambda () {}) '(()))", x),
+        "apply-renamed" => format!("(funcall (lambda () {}) '())", x),
+        "apply-prefixed" => format!("(p:apply (lambda () {}) '())", x),
         _ => unreachable!(),
     }
 }
@@ -40,12 +44,14 @@ pub fn wrap_all(ctxs: &[&str], call: &str) -> String {
     cur
 }
 
+/// apply is also known to the program under two other names
+const IMPORTS: &str = "(import (rename (only (scheme base) apply) (apply funcall)) (prefix (only (scheme base) apply) p:))";
 const STEP: &str = "(define (step acc i) (floor-remainder (+ (* acc 3) i) 1009))";
 
 /// program text for a loop of the given shape whose recursive call sits in the given tail contexts
 pub fn program(shape: &str, ctxs: &[&str], n: u32) -> Vec<String> {
     let w = |call: &str| wrap_all(ctxs, call);
-    let mut forms = vec![STEP.to_string()];
+    let mut forms = vec![IMPORTS.to_string(), STEP.to_string()];
     match shape {
         "self" => {
             forms.push(format!("(define (loop i acc) (probe i) (if (= i 0) acc {}))", w("(loop (- i 1) (step acc i))")));
@@ -83,6 +89,11 @@ pub fn program(shape: &str, ctxs: &[&str], n: u32) -> Vec<String> {
                 w("((make-step (+ k 1)) (- i 1) (step acc i))")
             ));
             forms.push(format!("((make-step 0) {} 1)", n));
+        }
+        "apply-as-parameter" => {
+            // (op op loop (list op a (list b))) with op = apply is (loop apply a b): a tail call all the way
+            forms.push(format!("(define (loop op i acc) (probe i) (if (= i 0) acc {}))", w("(op op loop (list op (- i 1) (list (step acc i))))")));
+            forms.push(format!("(loop apply {} 1)", n));
         }
         "internal-definition" => {
             forms.push(format!("(define (run n) (define (iter i acc) (probe i) (if (= i 0) acc {})) (iter n 1))", w("(iter (- i 1) (step acc i))")));
@@ -133,7 +144,7 @@ pub fn measure(forms: Vec<String>, n: u32) -> Measured {
 
 pub fn judge(shape: &str, ctxs: &[&str], n: u32) -> Report {
     let forms = program(shape, ctxs, n);
-    let mut rep = Report::new(format!("N={} {}", n, forms[1..].join(" ")));
+    let mut rep = Report::new(format!("N={} {}", n, forms[2..].join(" ")));
     rep.label(format!("shape:{}", shape));
     for c in ctxs {
         rep.label(format!("context:{}", c));
@@ -141,7 +152,7 @@ pub fn judge(shape: &str, ctxs: &[&str], n: u32) -> Report {
     rep.nontrivial = ctxs.len() >= 2 || shape != "self";
     let m = measure(forms, n);
     let ctx_name = ctxs.join("+");
-    let tag = if ctxs.contains(&"apply") { "tail-context:apply".to_string() } else { format!("{}:{}", shape, ctx_name) };
+    let tag = if ctxs.iter().any(|c| c.starts_with("apply")) { "tail-context:apply".to_string() } else { format!("{}:{}", shape, ctx_name) };
     let expected = if shape == "fresh-closure-per-iteration" { closed_form(n) * 10000 + n as i32 } else { closed_form(n) };
     match &m.outcome {
         Outcome::Value(SVal::Num(crate::sut::SNum::Int(v))) if *v == expected => {}
@@ -184,8 +195,9 @@ pub fn judge(shape: &str, ctxs: &[&str], n: u32) -> Report {
 pub fn run(ctx: &Ctx) {
     ctx.set_rule(
         "loop programs = loop shape (self, 2-/3-way mutual, through a procedure parameter, variadic with re-spread rest \
-         argument, closure-returned, internal definition) x composition of tail contexts (16: body-last, if-then, if-else, \
-         begin, let, let*, cond clause/else/=>, case clause/else, and, or, when, unless, apply) x N; the loop calls (probe i) \
+         argument, closure-returned, internal definition, a fresh closure per iteration, apply arriving as a parameter and handed to itself) x composition of tail contexts (19: body-last, if-then, if-else, \
+         begin, let, let*, cond clause/else/=>, case clause/else, and, or, when, unless, apply, apply handed to apply, \
+         apply imported under another name / with a prefix) x N; the loop calls (probe i) \
          once per iteration, which records the real machine stack address and the thread's live heap bytes. Quick: every \
          single context and every depth-2 composition for the self shape (N=64 and N=4000), every shape x every single \
          context; thorough: all depth-2 compositions x all shapes, sampled depth-3, N=64 and N=40000. Oracle: result equals \
@@ -209,8 +221,9 @@ pub fn run(ctx: &Ctx) {
     let shape_count = ctx.tier.pick(1usize, shapes.len());
     ctx.indexed("depth-2", pairs * shape_count as u64, 1, |i| {
         let i = i as usize;
-        let (a, b) = (CONTEXTS[i % 16], CONTEXTS[(i / 16) % 16]);
-        let s = shapes[i / 256];
+        let nc = CONTEXTS.len();
+        let (a, b) = (CONTEXTS[i % nc], CONTEXTS[(i / nc) % nc]);
+        let s = shapes[i / (nc * nc)];
         Some(judge(s, &[a, b], big))
     });
     // sampled: depth-2 on the other shapes (quick), depth-3 (thorough)
